@@ -169,7 +169,11 @@ def render_args(ctx, case):
     from core import wl
     kind = case
     name = ctx.choose([None, 'serial', PAYLOADS[3]], 'name')
-    pl = ctx.choose(PAYLOADS, 'payload')
+    pl = ctx.choose(PAYLOADS + (['<long>'] if kind in ('string', 'unknown') else []), 'payload')
+    if pl == '<long>':
+        # every length up to 128 characters and some longer ones (titles, paths, mime types): any shortening / wrapping must not depend on colour
+        big = ctx.choose([None, 200, 255, 256, 257, 1024, 4096], 'big_length')
+        pl = 'x' * (ctx.fresh_int('length', 0, 129, small=True) if big is None else big)
     n = ctx.choose([0, 7, -3, 4294967295], 'number')
 
     def mkobj(resolved, typed, gen):
